@@ -110,7 +110,13 @@ def run(ctx):
         if not g.ok:
             raise Machinery("op generation failed: %s" % (g.violation,))
         ops = json.load(open(inp))["ops"]
+        # "each has a fresh salt" must not depend on application-visible generator state: the application may seed the global PRNG (a level
+        # seed, a test fixture), so the second round of hashes is made from exactly the PRNG state the first round started in
+        import random as _random
+        _random.seed(ctx.seed)
+        st = _random.getstate()
         hashes = {p: A.Auth.hash_password(PW[p]) for p in pws}
+        _random.setstate(st)
         hashes2 = {p: A.Auth.hash_password(PW[p]) for p in pws}
         jobs, meta = [], []
         rows = []
